@@ -814,6 +814,29 @@ func RunScript(pkg Package, meta []TableMeta, db *sql.DB, w io.Writer, case_ int
 			res := s.call(t.Funcs["Delete"], item, s.db)
 			ev.Err, ev.Msg = classify(errOf(res[0]))
 			s.emit(ev)
+		case "delkey": // st.C[0] is the key field, st.IDs abstract ids of the table it points to
+			var col *ColMeta
+			for i := range m.Cols {
+				if m.Cols[i].Field == st.C[0] {
+					col = &m.Cols[i]
+				}
+			}
+			ev := Event{Ev: "call", Op: "DeleteByFK", Fn: "DeleteByFK/" + st.C[0], Table: m.Go, Cols: []string{st.C[0]}}
+			args := []any{s.db}
+			for _, abs := range st.IDs {
+				ev.IDs = append(ev.IDs, realID(col.FK, abs))
+				args = append(args, realID(col.FK, abs))
+			}
+			res := s.call(t.Funcs["DeleteByFK/"+st.C[0]], args...)
+			ev.Err, ev.Msg = classify(errOf(res[1]))
+			if ev.Err == "" {
+				if m.IDField != "" {
+					ev.OutID = idList(res[0])
+				} else {
+					ev.Out = s.collect(m, res[0])
+				}
+			}
+			s.emit(ev)
 		default:
 			panic("zcrud: unknown script operation " + st.Op)
 		}
